@@ -19,8 +19,10 @@ RULE = ('k=2-3 (quick, exhaustive) / up to 5 (thorough) handlers on one event, '
         'remove_processor / clear) or INSIDE callback number i of the dispatch '
         'for every i and every victim other than the running handler. The '
         'listener iteration order is steered through __hash__ (all '
-        'permutations of hash values for k<=3) and the delivery order actually '
-        'observed is recorded. Oracle: no callback with a None receiver, no '
+        'permutations of hash values for k<=3; effective only where the '
+        'dispatcher hashes handlers by value) and the delivery order actually '
+        'observed is recorded; handlers may be value-like (distinct handlers '
+        'that compare and hash equal, also across classes). Oracle: no callback with a None receiver, no '
         'exception, every handler alive and registered for the whole dispatch '
         'receives the token exactly once, dropped handlers receive nothing '
         'afterwards, after gc.collect() every dropped handler is dead, and a '
@@ -75,6 +77,17 @@ def gen_cases(tier, seed):
             yield dict(case, twice=True)
     for k in (1, 2, 3):
         yield {'mode': 'slots', 'k': k}
+    # value-like handlers: distinct handlers that compare and hash equal
+    for k in (2, 3, 4):
+        for hashes in ([0] * k, [0] * (k - 1) + [1]):
+            for owner in OWNERS:
+                for how in HOWS[owner]:
+                    for when in ['between'] + list(range(k)):
+                        for v in range(k):
+                            yield {'k': k, 'hashes': hashes, 'owner': owner,
+                                   'eq': True,
+                                   'drops': [{'when': when, 'victim': v,
+                                              'how': how}]}
     # scale: many listeners of one event, a callback drops listeners that
     # the dispatch has not reached yet
     for k in (40, 70, 100):
@@ -106,7 +119,8 @@ def gen_cases(tier, seed):
                           'how': rng.choice(HOWS[owner])})
         yield {'k': k, 'hashes': hashes, 'owner': owner, 'drops': drops,
                'flush': rng.random() < 0.4,
-               'twice': owner == 'bare' and rng.random() < 0.3}
+               'twice': owner == 'bare' and rng.random() < 0.3,
+               'eq': rng.random() < 0.3}
 
 
 def run_slots(case):
@@ -244,6 +258,13 @@ def _run_case(case):
 
     def make_class(uid, base):
         ns = {'on_ev': on_ev, '__hash__': lambda self: self.hval}
+        if case.get('eq'):
+            # value-like handlers: equal (and equally hashed) whenever their
+            # steered hash values coincide, also across classes
+            ns['__eq__'] = lambda self, other: (
+                getattr(other, 'hval', None) == self.hval)
+            res.tags['value_equal_handlers'].add(
+                len(set(case['hashes'])) < len(case['hashes']))
         if base is not object:
             ns['process'] = lambda self, dt=1: None
         return desper.event_handler(ev='on_ev')(type(f'W{uid}', (base,), ns))
